@@ -24,7 +24,7 @@ def describe(tier):
         "rule": "R: every data segment of a TLS 1.2/IPv4 and a TLS 1.3/IPv6 connection damaged (payload byte / checksum field) and followed 1 or 3 packets later by its intact "
                 "retransmission - export(-c) must equal export(no -c) of the capture without the damaged packet; F (plus the same sweep on frames carrying Ethernet padding or a 4-byte FCS trailer, on IPv4 packets with 4 and 40 bytes of header options, and on IPv6 packets with extension headers): for ipver x proto x parity x " + ("2" if q else "3") + " base payloads, a 16-bit payload word takes all 65536 values; "
                 "each packet is evaluated with its correct checksum (sender rule incl. UDP 0->0xffff) and with " + ("2" if q else "4") +
-                " wrong values that fail the receiver test; P: all 256 subsets of 8 designated packets corrupted (payload byte "
+                " wrong values that fail the receiver test; F also interleaves correct packets of the other transport protocol between the same addresses, incl. one of equal transport length; R also with record headers in 5-byte segments of their own; P (2 TLS + 2 QUIC connections, TCP and UDP between the same hosts, one QUIC connection on an unconfigured port, a third of the subsets with -c -g): all 256 subsets of 8 designated packets corrupted (payload byte "
                 "flipped without fixing the checksum / checksum field changed). non-trivial: F - a packet whose folded sum needed "
                 ">= 1 carry fold; P - a subset run whose -c export equals the filtered export and is non-empty; distinct = distinct "
                 "(variant, word) / subset",
